@@ -468,3 +468,40 @@ def run(ctx, rep):
                                   'read-only API' % fn.name)
     if not status_writers and not any(v.rule == 'O1' for v in rep.violations):
         rep.machinery('ANCHOR-MISSING status writer (no status latch frontier)')
+
+
+def wstar(facts, gcache):
+    """instances from which a device write is reachable WITHOUT crossing a latch-guarded call site (DEV_W*):
+    a structural mutation, as opposed to a write-back that only happens when a latch is already set"""
+    from collections import deque
+    leaves = [i['id'] for i in facts.instances if dev_leaf_kind(i['fn']) == 'W']
+    seen = set(leaves)
+    dq = deque(leaves)
+    while dq:
+        x = dq.popleft()
+        for a, bb, kind in facts.in_edges[x]:
+            if a in seen:
+                continue
+            fn = facts.fns.get(facts.instances[a]['fn'])
+            if fn is not None and bb in guarded_blocks(fn, gcache):
+                continue
+            seen.add(a)
+            dq.append(a)
+    return seen
+
+
+def mutation_sites(facts, fn, ws, gcache):
+    """call/drop blocks of fn that may perform an unguarded device write in some instance"""
+    out = []
+    g = guarded_blocks(fn, gcache)
+    for bi in sorted(fn.reachable()):
+        t = fn.blocks[bi]['term']
+        if t['k'] not in ('call', 'drop') or bi in g:
+            continue
+        if t['k'] == 'call' and t.get('callee') == fn.name:
+            continue  # recursion into the same operation on a sub-path: judged in its own right
+        for iid in facts.insts_of.get(fn.name, []):
+            if any(c in ws for c, k in facts.edge_at.get((iid, bi), ())):
+                out.append(bi)
+                break
+    return out
